@@ -257,8 +257,10 @@ fn run_job(tab: &[Entry], job: &Job, prop: Prop, tier: Tier) -> JobOut {
                     }
                     let kf = if c11 { classify_kf(l, op, a, b, &ex) } else { None };
                     let permitted = exp.is_none() || (op.form == Form::Plain && kf.is_some());
-                    if c11 && permitted && l.w > 8 && op.name.contains('@') {
-                        // by-reference / assigning forwarders: permitted-panic cases only on the 8-bit layouts
+                    if c11 && permitted && l.w > 8 && (op.name.contains('@') || (tier == Tier::Quick && !alpha::frac_star(l.w).contains(&l.frac))) {
+                        // permitted-panic cases cost a caught panic each in the checking build: the by-reference /
+                        // assigning forwarders only on the 8-bit layouts, and in the quick tier only the boundary
+                        // fractional-bit counts of the wider families
                         continue;
                     }
                     let got = subject(|| (e.bin)(i, a, b)).unwrap_or(Out::Panic);
@@ -523,6 +525,13 @@ fn cmd_dump(args: &Args) {
     use std::io::Write;
     if unary {
         for &a in &d.un {
+            if (op.base == "int" || op.base == "frac") && l.int_bits() == 0 {
+                continue;
+            }
+            // the digests cover exactly the cases for which no profile-dependent panic is permitted
+            if expect(l, op.form, &exact_un(l, op.base, a), false).is_none() {
+                continue;
+            }
             let got = subject(|| (e.un)(i, a)).unwrap_or(Out::Panic);
             writeln!(o, "{}\t{}", case_un(l, op, a), got).unwrap();
         }
@@ -530,6 +539,10 @@ fn cmd_dump(args: &Args) {
         for (av, bv) in &d.bin {
             for &a in av {
                 for &b in bv.iter() {
+                    let ex = exact_bin(l, op.base, a, b);
+                    if expect(l, op.form, &ex, false).is_none() || (op.form == Form::Plain && classify_kf(l, op, a, b, &ex).is_some()) {
+                        continue;
+                    }
                     let got = subject(|| (e.bin)(i, a, b)).unwrap_or(Out::Panic);
                     writeln!(o, "{}\t{}", case_bin(l, op, a, b), got).unwrap();
                 }
